@@ -4,6 +4,24 @@ From VGI Require Import M_Values.
 Import ListNotations.
 Open Scope Z_scope.
 
+Arguments f32_round : simpl never.
+Arguments f64_trunc : simpl never.
+Arguments f64_of_Z : simpl never.
+Arguments f64_frac_zero : simpl never.
+Arguments int_in_range : simpl never.
+Arguments pow2 : simpl never.
+Arguments unit_store : simpl never.
+Arguments unit_us : simpl never.
+Arguments str_ok : simpl never.
+Arguments name_in : simpl never.
+Arguments Z.mul : simpl never.
+Arguments Z.div : simpl never.
+Arguments Z.pow : simpl never.
+Arguments N.eqb : simpl never.
+Arguments Z.eqb : simpl never.
+Arguments Z.leb : simpl never.
+Arguments Z.abs : simpl never.
+
 (* ------------------------------------------------------------------ basics *)
 Lemma list_eqb_N_eq : forall a b, list_eqb_N a b = true -> a = b.
 Proof.
@@ -61,7 +79,7 @@ Proof.
     apply list_outcome_id. intros x Hx. apply IH; auto. rewrite forallb_forall in Ht. auto.
 Qed.
 
-Lemma plain_not_converted : forall t v ser,
+Lemma plain_not_converted : forall t v (ser : list N -> list N),
   wire_plain t = true -> has_type t v = true -> convert_for_arrow ser v = v.
 Proof.
   intros t v ser Hp Ht. destruct v; try reflexivity; exfalso.
@@ -71,10 +89,10 @@ Proof.
   - (* VDict *) induction t; simpl in *; try discriminate; try (destruct w; discriminate); auto.
 Qed.
 
-Lemma deserialize_plain : forall ser deser t x,
+Lemma deserialize_plain : forall (deser : list N -> option (list N)) t x,
   wire_plain t = true -> deserialize_value deser t x = Accept x.
 Proof.
-  intros ser deser t x Hp. unfold deserialize_value.
+  intros deser t x Hp. unfold deserialize_value.
   destruct t; simpl in *; try discriminate; try reflexivity.
   destruct t; simpl in *; try discriminate; reflexivity.
 Qed.
@@ -168,17 +186,16 @@ Section Path.
     { intros t0 Hp Hn0 Ht0. rewrite (plain_not_converted t0 v ser Hp Ht0).
       rewrite (arrow_rt_plain_id t0 v Hp Ht0). pose proof (has_type_not_none t0 v Hn0 Ht0) as Hv.
       split. { intros C. inversion C. subst. discriminate. }
-      simpl. rewrite Hv. apply (deserialize_plain ser). exact Hp. }
-    destruct t; simpl in Hs; try discriminate;
-      try (cbv zeta; rewrite plain_not_data by exact Hs; apply Plain; auto; fail).
-    - (* TInt *) apply (Plain (TInt signed bits)); auto.
+      simpl. rewrite Hv. apply deserialize_plain. exact Hp. }
+    destruct t as [sg bits|w| | | |names| | |u tz|u|u|p sc|t|t|t|k w]; simpl in Hs; try discriminate.
+    - (* TInt *) apply (Plain (TInt sg bits)); auto.
     - (* TFloat *) apply (Plain (TFloat w)); auto.
     - apply (Plain TStr); auto.
     - apply (Plain TBytes); auto.
     - apply (Plain TBool); auto.
     - (* TEnum *) destruct v; simpl in Ht; try discriminate. simpl.
-      rewrite (name_in_str_ok _ _ Hs Ht). simpl. rewrite Ht. split; [discriminate|reflexivity].
-    - (* TData *) destruct v; simpl in Ht; try discriminate. simpl. rewrite deser_ser. split; [discriminate|reflexivity].
+      rewrite (name_in_str_ok _ _ Hs Ht). simpl. unfold deserialize_value. simpl. rewrite Ht. split; [discriminate|reflexivity].
+    - (* TData *) destruct v; simpl in Ht; try discriminate. simpl. unfold deserialize_value. simpl. rewrite deser_ser. split; [discriminate|reflexivity].
     - apply (Plain TDate); auto.
     - apply (Plain (TTimestamp u tz)); auto.
     - apply (Plain (TTime u)); auto.
@@ -186,48 +203,61 @@ Section Path.
     - (* TList *) apply (Plain (TList t)); auto.
     - (* TSet *) destruct v; simpl in Ht; try discriminate. apply andb_true_iff in Ht as [He Hd].
       simpl. rewrite list_outcome_id.
-      + simpl. rewrite set_of_list_distinct by exact Hd. split; [discriminate|reflexivity].
+      + simpl. unfold deserialize_value. simpl. rewrite set_of_list_distinct by exact Hd. split; [discriminate|reflexivity].
       + intros x Hx. apply arrow_rt_plain_id; auto. rewrite forallb_forall in He. auto.
     - (* TMap *) destruct v; simpl in Ht; try discriminate. apply andb_true_iff in Ht as [He Hd].
       apply andb_true_iff in Hs as [Hk Hw].
       simpl. rewrite list_outcome_id.
-      + simpl. rewrite dict_of_pairs_distinct by exact Hd. split; [discriminate|reflexivity].
+      + simpl. unfold deserialize_value. simpl. rewrite dict_of_pairs_distinct by exact Hd. split; [discriminate|reflexivity].
       + intros x Hx. unfold dict_items in Hx. apply in_map_iff in Hx as [[a b] [<- Hin]]. simpl.
         rewrite forallb_forall in He. specialize (He _ Hin). simpl in He.
         apply andb_true_iff in He as [He1 Hb]. apply andb_true_iff in He1 as [Ha Hnn].
-        rewrite (arrow_rt_plain_id t1 a Hk Ha). rewrite (arrow_rt_plain_id t2 b Hw Hb).
+        rewrite (arrow_rt_plain_id k a Hk Ha). rewrite (arrow_rt_plain_id w b Hw Hb).
         destruct a; simpl in Hnn; try discriminate; reflexivity.
   Qed.
 
   Lemma is_data_no_opt : forall t, is_data t = true -> t = TData.
   Proof. destruct t; simpl; intros; try discriminate; reflexivity. Qed.
 
+  Lemma one_way_some : forall a nullable T t v,
+    (forall x, deserialize_value deser T x = deserialize_value deser t x) ->
+    is_none v = false ->
+    arrow_rt a (convert_for_arrow ser v) <> Accept VNone ->
+    bind (arrow_rt a (convert_for_arrow ser v))
+         (fun x => if is_none x then Reject else deserialize_value deser t x) = Accept v ->
+    one_way ser deser (a, nullable) T v = Accept v.
+  Proof.
+    intros a nullable T t v Hd Hv Hnn Hb. unfold one_way. rewrite Hv. simpl.
+    destruct (arrow_rt a (convert_for_arrow ser v)) as [x| |]; simpl in *; try discriminate.
+    destruct (is_none x) eqn:E.
+    - destruct x; try discriminate; exfalso; apply Hnn; reflexivity.
+    - rewrite Hd. exact Hb.
+  Qed.
+
+  Lemma deserialize_opt : forall t' x, no_opt t' = true ->
+    deserialize_value deser (TOpt t') x = deserialize_value deser t' x.
+  Proof. intros t' x Hn. destruct t'; try discriminate; reflexivity. Qed.
+
   (* a value of a supported annotation is accepted by the parameter path and arrives unchanged *)
   Lemma param_path_exact : forall t v,
     supported t = true -> has_type t v = true -> param_path ser deser t v = Accept v.
   Proof.
-    intros t v Hs Ht. unfold param_path, one_way, param_field.
-    destruct t as [s bits|w| | | |names| | |u tz|u|u|p s|t'|t'|t'|k w];
-      try (simpl is_opt; cbv iota beta;
-           match goal with |- context [is_data ?T] =>
-             pose proof (core_exact T v eq_refl Hs Ht) as [Hnn Hb];
-             rewrite (has_type_not_none T v eq_refl Ht); simpl negb; simpl andb; cbv iota;
-             destruct (is_data T);
-             (destruct (arrow_rt _ (convert_for_arrow ser v)) as [x| |] eqn:E; simpl in Hb |- *; try discriminate;
-              destruct x; simpl in Hb |- *; try exact Hb; exfalso; apply Hnn; reflexivity)
-           end; fail).
-    (* TOpt t' *)
-    simpl in Hs. simpl is_opt. cbv iota beta.
-    destruct v; try (
-      assert (no_opt t' = true) as Hn by (destruct t'; simpl in Hs; try discriminate; reflexivity);
-      simpl in Ht;
-      pose proof (core_exact t' _ Hn Hs Ht) as [Hnn Hb];
-      simpl is_none; simpl andb; cbv iota;
-      destruct (is_data t');
-      (destruct (arrow_rt _ (convert_for_arrow ser _)) as [x| |] eqn:E; simpl in Hb |- *; try discriminate;
-       destruct x; simpl in Hb |- *; try exact Hb; exfalso; apply Hnn; reflexivity); fail).
-    (* VNone *)
-    simpl. destruct (is_data t'); simpl; try rewrite arrow_rt_none; reflexivity.
+    intros t v Hs Ht. unfold param_path.
+    destruct (no_opt t) eqn:Hn.
+    - assert (param_field t = ((if is_data t then ABin else infer t), false)) as ->
+        by (destruct t; try discriminate; reflexivity).
+      assert (supported_inner t = true) as Hsi by (destruct t; try discriminate; exact Hs).
+      destruct (core_exact t v Hn Hsi Ht) as [Hnn Hb].
+      apply one_way_some with (t := t); auto. eapply has_type_not_none; eauto.
+    - destruct t as [sg bits|w| | | |names| | |u tz|u|u|p sc|t'|t'|t'|k w]; try discriminate. simpl in Hs.
+      assert (no_opt t' = true) as Hn' by (destruct t'; simpl in Hs; try discriminate; reflexivity).
+      assert (param_field (TOpt t') = ((if is_data t' then ABin else infer t'), true)) as ->
+        by (unfold param_field; simpl; destruct (is_data t'); reflexivity).
+      destruct (is_none v) eqn:Hv.
+      + destruct v; try discriminate. unfold one_way. simpl. rewrite arrow_rt_none. reflexivity.
+      + assert (has_type t' v = true) as Ht' by (destruct v; try discriminate; exact Ht).
+        destruct (core_exact t' v Hn' Hs Ht') as [Hnn Hb].
+        apply one_way_some with (t := t'); auto. intros x. apply deserialize_opt. exact Hn'.
   Qed.
 
   Lemma result_field_fixed : forall t, result_field true t = param_field t.
